@@ -55,6 +55,12 @@ def main():
         result["demo_with_change"] = "fail (as intended)" if rc1 != 0 else "PASSES (demo does not show the break)"
         os.remove(os.path.join(wt, demo_path))
         pk = " ".join(meta.get("existing_tests_run") or [])
+        if os.environ.get("VERIF_SV_SKIP_EXISTING"):
+            # re-verification after the checks changed: the existing tests were run when the change was first confirmed
+            prev = (meta.get("verification") or {}).get("existing_tests_with_change")
+            if prev:
+                result["existing_tests_with_change"] = prev
+            pk = ""
         if pk:
             rc2, out2 = sh(GO + " test -count=1 %s" % pk, wt, timeout=3000)
             result["existing_tests_with_change"] = "pass" if rc2 == 0 else "FAIL: " + out2[-600:]
